@@ -211,7 +211,7 @@ func init() {
 	decodeCorpus := "Corpus engine: every registered layer type (enumerated at run time) x inputs derived from (1) fixtures harvested from the repository itself - every []byte and hex-string literal of the *_test.go files (go/parser) and every packet of the capture files under /repo (per-interface link type), each decoded once so that the suffix starting at every layer becomes a seed for that layer's type; literals offered to every type and ranked by how far they decode; a fixed-PRNG search and a hand-made table (SCTP chunk packets, CTP, DHCPv6, a DNS message per record type, pktap) for types the fixtures never reach - (2) packets of the core stacks built byte by byte (Ethernet/Dot1Q/IPv4+options/IPv6+hop-by-hop/TCP with every option kind incl. the 9 MPTCP subtypes/UDP/DNS/ICMPv4/ICMPv6/GRE/SCTP/VXLAN/ARP) and (3) mutators: every prefix length, bit flips, byte substitutions {0,1,0x7f,0x80,0xfe,0xff}, length-looking byte +-{1,2,4,8}, 16/32-bit boundary values in both byte orders, splices, block repeats, extensions, grow-region (a length byte/word and the region it covers grown together), double mutations, plus all-0x00/0xff and random strings; deterministic structure-aware variants per seed: tail stretched by k bytes with the 1..5 outermost covering length fields increased by k, one covering field +-k, regions cut to 0..3 bytes with their length field adjusted, and a single-byte sweep over 12 values incl. text separators."
 	add(Spec{
 		PropSpec: vlib.PropSpec{
-			ID: "C19", Level: "exploration",
+			ID: "C19", Level: "exploration", CrashAnywhere: true,
 			Rule:        decodeCorpus + " Each (type, input) goes through three unrecovered entry points: NewPacket with SkipDecodeRecovery (Lazy x DecodeStreamsAsDatagrams) + Layers(); DecodeFromBytes of every exported struct type implementing DecodingLayer (constructors generated from the source tree, filed under each layer type it can decode - so implementations that share a layer type or that no packet decoder constructs are included), on a fresh and on a previously used object, followed by NextLayerType/CanDecode/LayerPayload; a DecodingLayerParser over all known decoding layers with IgnorePanic. Any panic, fatal error or CPU/heap runaway is a violation; a returned error is success. Non-trivial = input at least as long as the shortest input on which that type's DecodeFromBytes returned nil in this run; distinct by (type, input hash).",
 			Assumptions: []string{"checkptr instrumentation is on (-gcflags=all=-d=checkptr)", "types for which no input ever decoded successfully are listed in the evidence as never entered"},
 			Phases: []vlib.Phase{
@@ -226,7 +226,7 @@ func init() {
 	})
 	add(Spec{
 		PropSpec: vlib.PropSpec{
-			ID: "C01", Level: "exploration",
+			ID: "C01", Level: "exploration", CrashAnywhere: true,
 			Rule:        decodeCorpus + " total phase: each (type, input) is decoded under all 16 combinations of Lazy/NoCopy/Pool/DecodeStreamsAsDatagrams (recovery on), followed by a PRNG-ordered program of read-only uses with repeats (Layers, Layer of own and foreign types, LayerClass over 7 classes, Link/Network/Transport/Application/ErrorLayer, Metadata, Data, VerifyChecksums, flows, per layer LayerContents/Payload, VerifyChecksum; on 3 of the 16 option sets also String, Dump, LayerString/LayerDump/LayerGoString and %v/%+v of every layer), a 64 KiB tier, every prefix of one seed per type and the tail-stretch variants of 5/60 seeds; for every lazy option set ErrorLayer() is also asked first on a fresh packet and must agree with the fully decoded one. Oracles: no panic / fatal error / CPU-heap runaway; error-layer bookkeeping (every DecodeFailure or ErrorLayer-implementing layer is last, is what ErrorLayer() returns, ErrorLayer() is an element of Layers()); two independent could-not-decode witnesses (the same input panics with recovery off; DecodeFromBytes of the first layer returns an error) imply a non-nil error layer; error-ness agrees across Lazy/NoCopy/Pool for non-empty inputs. shapes phase: structured variants of 3/12 seeds per type - every region announced by a length byte or word cut down to 0..3 bytes (kept, zero, 0xff or small-type content) with the field adjusted, and the tail-stretch variants - each through one eager and one lazy packet with every renderer and accessor (the tiny-but-consistent options and identifiers that String methods meet for the first time). wellformed phase: packets built byte by byte with correct lengths and checksums must decode with a nil error layer and no truncation flag under all 16 option sets. Non-trivial = packet with >= 2 layers or an error layer; distinct by (type, input hash). scripted phase: a layer type registered by the harness whose decoder is scripted by the input bytes - each step adds one or two layers, claims the link/network/transport/application slot, marks truncation, hands over to itself, to the payload decoder, to a registered type or to a nil decoder, returns an error before or after adding its layer, panics, swallows the rest, or stops; every script of up to 3 (thorough 4) steps plus PRNG scripts: the part of the PacketBuilder protocol the library's own decoders never use is explored too. Each script goes through the total phase's oracle (16 option sets, accessors, bookkeeping).",
 			Assumptions: []string{"'everything decoded => error layer nil' is asserted only where it is known by construction (well-formed constructed packets)", "checkptr instrumentation is on"},
 			Phases: []vlib.Phase{
